@@ -696,6 +696,28 @@ def case_deep_include(tag, depth, rng=None, refuse=False):
     return [f.cmd() for f in files] + ["load o1 %s/m" % d, "apply o1 go", exp, "dump o1"]
 
 
+def case_longname(tag, n=250, include=False):
+    """a program (or an included file) whose path is longer than the 256 byte buffer get_line_number() used to have"""
+    d = "/c18/%s" % tag
+    name = "m" * n
+    m = Src("%s/%s.c" % (d, name) if not include else "%s/m.c" % d)
+    m.text("int x_;\nvoid set_oid(string s) {}\n")
+    files = [m]
+    src = m
+    if include:
+        h = Src("%s/%s.h" % (d, "h" * n))
+        h.text("// long header name\n")
+        m.text('#include "%s.h"\n' % ("h" * n))
+        files.append(h)
+        src = h
+    src.text("int go(int k) {\n")
+    ln = src.line
+    src.text("  x_ = 10 / k;\n  return 0;\n}\n")
+    p, o = m.name, m.path[:-2]
+    exp = "expect kind=plain file=%s lines=%d-%d program=%s object=%s trace=go@%s@%s@%s@%d-%d" % (src.name, ln, ln, p, o, p, o, src.name, ln, ln)
+    return [f.cmd() for f in files] + ["load o1 %s" % o, "apply o1 go", exp, "dump o1"]
+
+
 def case_toolarge(tag, nfun=45, nstmt=190):
     """more than 65535 bytes of code (nfun functions of nstmt filler statements, 8 bytes each): function addresses,
     program_size and the offsets find_line works with are 16 bit, so the compiler has to refuse the program"""
@@ -1235,6 +1257,8 @@ class C18(Prop):
         mk("include-depth-refused", case_deep_include("b_deepref", 32, refuse=True), fail="compile-error")
         # line tables around 65535 bytes (file_info[0], their size, is an unsigned short): 21 000 / 21 900 / 22 600 runs with
         # about 22 KB of code; the failing statement is the last code of the program
+        mk("long-file-name", case_longname("b_longname", 250), fail="div")
+        mk("long-include-name", case_longname("b_longinc", 244, include=True), fail="div")
         mk("manyruns-3000", case_manyruns("b_runs3k", 3000, tail=50), fail="div", long=1)
         mk("manyruns-below-64k", case_manyruns("b_runs21k", 21000, tail=20), fail="div", long=1)
         mk("manyruns-above-64k", case_manyruns("b_runs22k", 21900, tail=100), fail="div", long=1)
